@@ -25,6 +25,7 @@ import (
 
 	"github.com/veesix-networks/osvbng/pkg/config"
 	"github.com/veesix-networks/osvbng/pkg/config/interfaces"
+	"github.com/veesix-networks/osvbng/pkg/config/protocols"
 	"github.com/veesix-networks/osvbng/pkg/config/subscriber"
 	conf "github.com/veesix-networks/osvbng/pkg/handlers/conf"
 	"github.com/veesix-networks/osvbng/pkg/handlers/conf/paths"
@@ -51,6 +52,7 @@ type c13Env struct {
 	applyFail int // fail the k-th Apply (0 = never)
 	rbN       int // Rollback calls seen in the current commit
 	rbFail    int // the k-th Rollback call returns an error (0 = never)
+	recordEmit bool
 	valFail   bool
 	frrLog    string
 	frrCtl    string
@@ -79,6 +81,11 @@ func c13Val(v interface{}) string {
 			return "b1"
 		}
 		return "b0"
+	case *protocols.BGPNetwork:
+		if x != nil && *x == (protocols.BGPNetwork{}) {
+			return "p"
+		}
+		return "p?"
 	case []string:
 		if len(x) == 0 {
 			return "l-"
@@ -93,6 +100,11 @@ func c13Val(v interface{}) string {
 }
 
 func (h *c13Handler) Validate(ctx context.Context, hctx *conf.HandlerContext) error {
+	if hctx.Config != nil && h.env.recordEmit {
+		// LoadConfig validates the changes the walker emitted, in emission order (a Set validates before
+		// the change gets its Config)
+		h.env.trace = append(h.env.trace, "E:"+hctx.Path+"="+c13Val(hctx.NewValue))
+	}
 	if h.env.valFail {
 		return fmt.Errorf("injected validation failure")
 	}
@@ -171,6 +183,8 @@ func c13Walk(prefix string, v reflect.Value, out map[string]bool) {
 			key := fmt.Sprint(k.Interface())
 			if enc, err := pathspkg.EncodeIP(key); err == nil {
 				key = enc // <*:ip> wildcards: the path carries the key hex-encoded
+			} else if strings.Contains(key, "/") {
+				key = hex.EncodeToString([]byte(key)) // <*:prefix> wildcards
 			}
 			p := prefix + "." + key
 			u := e
@@ -329,6 +343,8 @@ func c13ParseVal(tok string) (interface{}, bool) {
 		return string(b), err == nil
 	case 'b':
 		return tok == "b1", tok == "b1" || tok == "b0"
+	case 'p':
+		return &protocols.BGPNetwork{}, tok == "p"
 	case 'l':
 		l := []string{}
 		if tok == "l-" {
@@ -351,7 +367,14 @@ func c13Err(err error) string {
 		return "ok"
 	}
 	m := err.Error()
+	for _, pre := range []string{"failed to commit: ", "failed to create session: "} {
+		m = strings.TrimPrefix(m, pre)
+	}
 	switch {
+	case strings.HasPrefix(m, "failed to save startup version"):
+		return "bootversion"
+	case strings.HasPrefix(m, "failed to process") || strings.HasPrefix(m, "failed to load config"):
+		return "booterr"
 	case strings.Contains(m, "configuration is locked"):
 		return "locked"
 	case strings.HasPrefix(m, "session ") && strings.HasSuffix(m, "not found"):
@@ -634,8 +657,29 @@ func c13RunCase(line string, root string, idx int, templates string) (res string
 			v, _ := strconv.Atoi(f[p+1])
 			r = c13Err(cd.Rollback(v))
 			p += 2
-		case "m":
+		case "l":
+			// LoadConfig(session, a copy of the candidate [with other subscriber groups])
+			id := sid(f[p+1])
+			base := cd.runningConfig
+			if sess := cd.sessions[id]; sess != nil {
+				base = sess.config
+			}
+			cfg := cd.deepCopyConfig(base)
+			switch f[p+2] {
+			case "c":
+				cfg.SubscriberGroups = c13DeepConfig(true).SubscriberGroups
+			case "n":
+				cfg.SubscriberGroups = c13DeepConfig(false).SubscriberGroups
+			}
+			env.recordEmit = true
+			r = c13Err(cd.LoadConfig(id, cfg))
+			env.recordEmit = false
+			p += 4
+		case "m", "B":
 			fault := f[p+2]
+			if op == "B" {
+				fault = f[p+1]
+			}
 			k := 0
 			flags := ""
 			if i := strings.Index(fault, ":"); i >= 0 {
@@ -665,7 +709,20 @@ func c13RunCase(line string, root string, idx int, templates string) (res string
 			if strings.Contains(flags, "v") {
 				cd.versionDir = badVerDir
 			}
-			err := cd.Commit(sid(f[p+1]))
+			var err error
+			if op == "B" {
+				// the start-up path: LoadStartupConfig + ApplyLoadedConfig of a configuration with a CGNAT pool
+				boot := filepath.Join(dir, "boot-cgnat.yaml")
+				os.WriteFile(boot, []byte("interfaces:\n  eth1:\n    name: eth1\n    enabled: true\n    mtu: 1500\n    description: wan\n"+
+					"cgnat:\n  pools:\n    p1:\n      outside_interfaces: [eth1]\n      outside-addresses: [\"203.0.113.0/24\"]\n"), 0644)
+				if _, err = cd.LoadStartupConfig(boot); err == nil {
+					env.recordEmit = true
+					err = cd.ApplyLoadedConfig()
+					env.recordEmit = false
+				}
+			} else {
+				err = cd.Commit(sid(f[p+1]))
+			}
 			cd.startupConfigPath = goodStartup
 			cd.versionDir = goodVerDir
 			env.applyFail, env.rbFail = 0, 0
@@ -687,7 +744,11 @@ func c13RunCase(line string, root string, idx int, templates string) (res string
 			tr = append(tr, frr...)
 			tr = append(tr, env.trace[i:]...)
 			env.trace = tr
-			p += 3
+			if op == "B" {
+				p += 4
+			} else {
+				p += 3
+			}
 		default:
 			return "badline"
 		}
